@@ -1,6 +1,6 @@
 (* wire wrappers of the transport-adapter streams (C03 "transport-release").
-   case = (refs packets clients events how); events = ((0 n) | (1 i) | (2 i mode) | (3));
-   observation = (clients (snapshot ..) note); snapshot = (cc rtsp flv wsp (ended ..) media-cc) *)
+   case = (refs packets clients events how); events = ((0 n) | (1 i) | (2 i mode) | (3) | (4) new publisher);
+   observation = (clients (snapshot ..) note); snapshot = (cc rtsp flv wsp (ended ..) media-cc (cc per stream generation ..)) *)
 From Coq Require Import ZArith List Bool.
 From V Require Import Val Bytes C01Wire.
 Import ListNotations.
@@ -11,19 +11,22 @@ Definition dec_tev (v : val) : tev :=
   | 0 => TPublish
   | 1 => TAttach (as_nat (nthv 1 v))
   | 2 => TStop (as_nat (nthv 1 v))
+  | 4 => TReplace
   | _ => TEnd
   end.
 
 Definition dec_snap (v : val) : snap :=
   {| sn_cc := as_int (nthv 0 v); sn_rtsp := as_int (nthv 1 v); sn_flv := as_int (nthv 2 v);
-     sn_wsp := as_int (nthv 3 v); sn_closed := map as_bool (as_list (nthv 4 v)) |}.
+     sn_wsp := as_int (nthv 3 v); sn_closed := map as_bool (as_list (nthv 4 v));
+     sn_gens := map as_int (as_list (nthv 6 v)); sn_of := [] |}.
 
 (* oracle on (case observed): after every event the consumer count, the per-protocol connection
    counters (relative to their values before the first attach) and the set of ended connections are
-   what the release specification says; media.Count agrees with the stream's own count *)
+   what the release specification says — the consumer count per stream generation included;
+   media.Count (registered streams only) agrees with the count of the stream registered last *)
 Definition x_C03_wire_ok (v : val) : val :=
   let c := nthv 0 v in let obs := nthv 1 v in
   let kinds := map (fun cv => as_int (nthv 0 cv)) (as_list (nthv 2 c)) in
   let snaps := as_list (nthv 1 obs) in
   vbool (ok_release (as_bool (nthv 0 c)) kinds (map dec_tev (as_list (nthv 3 c))) (map dec_snap snaps)
-         && forallb (fun s => as_int (nthv 0 s) =? as_int (nthv 5 s)) snaps).
+         && forallb (fun s => as_int (nthv 5 s) =? last (map as_int (as_list (nthv 6 s))) 0) snaps).
